@@ -14,7 +14,17 @@ RULE = ("interactions: chains of 4..9 beads built through the Topology API in "
         "central differences (h, h/2, h/4; h = 1e-3 * shortest bond * sine "
         "margin) of EvaluateVar with its own error estimate (tolerance "
         "1e-6*|grad| + 10*estimate), sum of gradients, rotation+translation "
-        "covariance, single-bead image shifts up to 1000 boxes. potentials: "
+        "covariance, single-bead image shifts up to 1000 boxes. Family "
+        "extended-in-small-box (own keys extended-in-small-box/*): the same "
+        "chains and oracles in orthorhombic and reduced triclinic boxes whose "
+        "shortest height is 2.05..3.3 times the bond length (bonds uniform in "
+        "0.30..0.49 of the shortest height, random directions), so that 1-3, "
+        "2-4 and 1-4 separations routinely exceed half a box edge (shares in "
+        "the counters *_beyond_half_an_edge) while every bond stays below half "
+        "the box; a bond with a component within 0.004 of half the "
+        "corresponding box edge is a don't-care (minimum-image "
+        "discontinuity); rotations only while all bonds are below 0.45 of the "
+        "shortest height. potentials: "
         "LJ126 / LJG / CBSPL(8..60 knots) with parameters over 6 orders of "
         "magnitude, r in [min, cutoff] incl. both ends and break points; DF "
         "vs numerical d/dlambda of CalculateF through setOptParam, D2F "
@@ -55,6 +65,7 @@ def run(chk):
     # bonds/angles/dihedrals, one potential with 3-6 r values, one spline with
     # 8 evaluation points)
     plan = [("inter", 8, vf.tier_n(chk.tier, 60, 2500)),
+            ("interx", 4, vf.tier_n(chk.tier, 60, 2500)),
             ("pot", 4, vf.tier_n(chk.tier, 60, 3000)),
             ("spline", 4, vf.tier_n(chk.tier, 400, 20000))]
     tmp = vf.scratch_dir(chk.pid)
